@@ -18,6 +18,7 @@ import (
 	"github.com/q191201771/naza/pkg/nazalog"
 	"io"
 	"net"
+	"os"
 	"strconv"
 	"strings"
 	"sync"
@@ -342,6 +343,25 @@ func c04Session(a []string) (out string) {
 		tokNum(uint64(reserved)), tokNum(uint64(streams)))
 }
 
+// c04.rss: peak resident set size of this process so far (VmHWM, KiB); used by
+// the memory regression guard of gen/c04.py, not part of the model comparison
+func c04Rss(a []string) string {
+	b, err := os.ReadFile("/proc/self/status")
+	if err != nil {
+		return "err " + err.Error()
+	}
+	for _, l := range strings.Split(string(b), "\n") {
+		if strings.HasPrefix(l, "VmHWM:") {
+			f := strings.Fields(l)
+			if len(f) >= 2 {
+				return "rss " + f[1]
+			}
+		}
+	}
+	return "err no-VmHWM"
+}
+
 func init() {
 	register("c04.sess", c04Session)
+	register("c04.rss", c04Rss)
 }
